@@ -40,6 +40,7 @@ class Node:
         self.insts = []        # dicts: child (Node), actuals {formal: (src_text, root, sel)}, order [formals], inline(bool)
         self.sigs = []         # (name, ty)
         self.depth = 0
+        self.base = None       # Node this entity class is derived from
 
 
 class Gen:
@@ -226,7 +227,21 @@ class Gen:
     def add_instance(self, nd, avail, undriven, new_sig):
         r = self.rnd
         reuse = [c for c in self.nodes if c is not nd and c.name != 'Top' and c.depth > nd.depth and self._inputs_ok(c, avail)]
-        if reuse and r.random() < 0.45:
+        if reuse and r.random() < 0.2:
+            # an entity class derived from an existing one: inherits its ports and logic, adds an output port of its own
+            # (the base class stays in use: its interface must not change)
+            base = r.choice([c for c in reuse if c.base is None] or reuse)
+            child = Node(f"{base.name}d{len(self.nodes)}")
+            child.depth = base.depth
+            child.base = base
+            xt = r.choice(['bit', 'bv4', 'u4'])
+            child.ports = list(base.ports) + [('xo', 'out', xt, None)]
+            src = [(n, t) for n, d, t, _ in base.ports if d == 'in' and n != 'clk']
+            child.body = [f"    {base.name}_body(M, " + ', '.join(f"{p[0]}={p[0]}" for p in base.ports) + ")",
+                          "    @std.concurrent", "    def cx():", f"        xo.next = {self.expr(xt, src)}"]
+            child.insts = []
+            self.nodes.append(child)
+        elif reuse and r.random() < 0.45:
             child = r.choice(reuse)
         else:
             child = self.new_node(nd.depth + 1)
@@ -316,15 +331,18 @@ class Gen:
     # ------------------------------------------------------------------ rendering
     def render(self):
         L = [HEADER]
-        order = [n for n in self.nodes if n.name != 'Top'][::-1] + [n for n in self.nodes if n.name == 'Top']
+        order = [n for n in self.nodes if n.name != 'Top' and n.base is None][::-1]
+        for d in [n for n in self.nodes if n.base is not None]:
+            order.insert(order.index(d.base) + 1, d)          # a derived class directly after its base
+        order += [n for n in self.nodes if n.name == 'Top']
         for nd in order:
             args = ', '.join(p[0] for p in nd.ports)
             L.append(f"def {nd.name}_body(M, {args}):")
             L += nd.body or ["    pass"]
             L.append("")
             for cname in ([nd.name] if nd.name != 'Top' else ['TopH', 'TopF']):
-                L.append(f"class {cname}(Entity):")
-                for n, d, t, df in nd.ports:
+                L.append(f"class {cname}({nd.base.name if nd.base is not None else 'Entity'}):")
+                for n, d, t, df in (nd.ports if nd.base is None else nd.ports[len(nd.base.ports):]):
                     if d == 'in':
                         L.append(f"    {n} = Port.input({TY[t]})")
                     else:
